@@ -326,7 +326,7 @@ def make_ellipse_case(ctx):
         if v < 0.2:
             b = a
         else:
-            b = a * float(10 ** rng.uniform(-3, 3)) if v < 0.6 else a * float(rng.uniform(0.2, 5))
+            b = a * float(10 ** rng.uniform(-3, 3)) if v < 0.6 else a * float(10 ** rng.uniform(-0.7, 0.7))
             if b == a:
                 b = a * 2
     centre = [0.0, 0.0, 0.0] if rng.random() < 0.3 else (rng.normal(size=3) * [1, 1, 0] * 10 * max(a, b)).tolist()
